@@ -1,2 +1,277 @@
 //! Kani harnesses for unit rdata (see /verif/notes/AGENT-BRIEF.md for naming: full_*, bnd_*, cex_*).
-#![allow(unused_imports, dead_code)]
+//!
+//! `Rdata::read` (src/rr/rdata/mod.rs) cannot be brought into Verus verbatim
+//! (function-local `type` items, fn-pointer typed closures, `Cow`), so its
+//! dispatch is checked here on the real code.  The type-specific readers
+//! (`read_name_rdata`, `read_ch_a`, `read_soa`, `read_minfo`, `read_mx`,
+//! `read_in_srv`) are proved in Verus (unit rdata) and are STUBBED here by
+//! recorders, so that the harness sees exactly which reader `read` routes a
+//! (class, type) pair to and with which arguments; the validators and
+//! `Rdata::validate` are the real ones (`validate` is proved in Verus to be
+//! `Ok` exactly for the RFC predicate of its class/type).
+#![allow(unused_imports, dead_code, static_mut_refs)]
+use std::borrow::Cow;
+
+use crate::class::Class;
+use crate::rr::rdata::{Rdata, ReadRdataError};
+use crate::rr::Type;
+
+/// Message length bound of the bnd_* harnesses.
+const N: usize = 6;
+
+static mut CALLS: u32 = 0;
+static mut SEEN_TAG: u8 = 0;
+static mut SEEN_CURSOR: usize = 0;
+static mut SEEN_RDLEN: u16 = 0;
+static mut SEEN_PTR: usize = 0;
+static mut SEEN_LEN: usize = 0;
+
+fn record(tag: u8, message: &[u8], cursor: usize, rdlength: u16) -> Result<Box<Rdata>, ReadRdataError> {
+    unsafe {
+        CALLS += 1;
+        SEEN_TAG = tag;
+        SEEN_CURSOR = cursor;
+        SEEN_RDLEN = rdlength;
+        SEEN_PTR = message.as_ptr() as usize;
+        SEEN_LEN = message.len();
+    }
+    if kani::any() {
+        Ok(vec![tag].try_into().unwrap())
+    } else {
+        Err(ReadRdataError::Other)
+    }
+}
+
+pub(crate) fn stub_read_name_rdata(m: &[u8], c: usize, l: u16) -> Result<Box<Rdata>, ReadRdataError> {
+    record(1, m, c, l)
+}
+pub(crate) fn stub_read_ch_a(m: &[u8], c: usize, l: u16) -> Result<Box<Rdata>, ReadRdataError> {
+    record(2, m, c, l)
+}
+pub(crate) fn stub_read_soa(m: &[u8], c: usize, l: u16) -> Result<Box<Rdata>, ReadRdataError> {
+    record(3, m, c, l)
+}
+pub(crate) fn stub_read_minfo(m: &[u8], c: usize, l: u16) -> Result<Box<Rdata>, ReadRdataError> {
+    record(4, m, c, l)
+}
+pub(crate) fn stub_read_mx(m: &[u8], c: usize, l: u16) -> Result<Box<Rdata>, ReadRdataError> {
+    record(5, m, c, l)
+}
+pub(crate) fn stub_read_in_srv(m: &[u8], c: usize, l: u16) -> Result<Box<Rdata>, ReadRdataError> {
+    record(6, m, c, l)
+}
+
+/// Which type-specific reader RFC 3597 section 4 (as documented by the crate)
+/// prescribes for a class/type pair; 0 = none (RDATA taken as is).
+fn expected_reader(class: u16, ty: u16) -> u8 {
+    match ty {
+        2 | 3 | 4 | 5 | 7 | 8 | 9 | 12 => 1, // NS MD MF CNAME MB MG MR PTR
+        1 if class == 3 => 2,                // CH A
+        6 => 3,                              // SOA
+        14 => 4,                             // MINFO
+        15 => 5,                             // MX
+        33 if class == 1 => 6,               // IN SRV
+        _ => 0,
+    }
+}
+
+/// BOUNDED (message <= N octets; class, type, cursor, RDLENGTH unrestricted):
+/// `Rdata::read` never panics; a pair with embedded compressible names goes to
+/// exactly its reader with the arguments unchanged and the reader's result is
+/// passed on as `Cow::Owned`; any other pair yields `Cow::Borrowed` of exactly
+/// `message[cursor..cursor+rdlength]` iff that range exists and
+/// `Rdata::validate(class, type)` accepts it, `UnexpectedEom` iff the range
+/// does not exist.
+#[kani::proof]
+#[kani::stub(crate::rr::rdata::helpers::read_name_rdata, crate::verif_kani::rdata::stub_read_name_rdata)]
+#[kani::stub(crate::rr::rdata::Rdata::read_ch_a, crate::verif_kani::rdata::stub_read_ch_a)]
+#[kani::stub(crate::rr::rdata::Rdata::read_soa, crate::verif_kani::rdata::stub_read_soa)]
+#[kani::stub(crate::rr::rdata::Rdata::read_minfo, crate::verif_kani::rdata::stub_read_minfo)]
+#[kani::stub(crate::rr::rdata::Rdata::read_mx, crate::verif_kani::rdata::stub_read_mx)]
+#[kani::stub(crate::rr::rdata::Rdata::read_in_srv, crate::verif_kani::rdata::stub_read_in_srv)]
+#[kani::unwind(9)]
+pub(crate) fn bnd_read_dispatch() {
+    let buf: [u8; N] = kani::any();
+    let n: usize = kani::any();
+    kani::assume(n <= N);
+    let msg = &buf[..n];
+    let c: u16 = kani::any();
+    let t: u16 = kani::any();
+    let class = Class::from(c);
+    let ty = Type::from(t);
+    let cursor: usize = kani::any();
+    let rdlength: u16 = kani::any();
+
+    let r = Rdata::read(class, ty, msg, cursor, rdlength);
+
+    let want = expected_reader(c, t);
+    let calls = unsafe { CALLS };
+    if want != 0 {
+        assert!(calls == 1);
+        unsafe {
+            assert!(SEEN_TAG == want);
+            assert!(SEEN_CURSOR == cursor);
+            assert!(SEEN_RDLEN == rdlength);
+            assert!(SEEN_PTR == msg.as_ptr() as usize);
+            assert!(SEEN_LEN == n);
+        }
+        match r {
+            Ok(Cow::Owned(b)) => assert!(b.octets().len() == 1 && b.octets()[0] == want),
+            Ok(Cow::Borrowed(_)) => assert!(false),
+            Err(e) => assert!(e == ReadRdataError::Other),
+        }
+    } else {
+        assert!(calls == 0);
+        let in_range = cursor <= n && (rdlength as usize) <= n - cursor;
+        match r {
+            Ok(Cow::Borrowed(rd)) => {
+                assert!(in_range);
+                let want_slice = &msg[cursor..cursor + rdlength as usize];
+                assert!(rd.octets().as_ptr() == want_slice.as_ptr());
+                assert!(rd.octets().len() == want_slice.len());
+                assert!(rd.validate(class, ty).is_ok());
+            }
+            Ok(Cow::Owned(_)) => assert!(false),
+            Err(e) => {
+                if !in_range {
+                    assert!(e == ReadRdataError::UnexpectedEom);
+                } else {
+                    let want_slice = &msg[cursor..cursor + rdlength as usize];
+                    let rd: &Rdata = want_slice.try_into().unwrap();
+                    assert!(rd.validate(class, ty).is_err());
+                }
+            }
+        }
+    }
+}
+
+fn record_validator(tag: u8, rdata: &Rdata) -> Result<(), ReadRdataError> {
+    unsafe {
+        CALLS += 1;
+        SEEN_TAG = tag;
+        SEEN_PTR = rdata.octets().as_ptr() as usize;
+        SEEN_LEN = rdata.octets().len();
+    }
+    if kani::any() {
+        Ok(())
+    } else {
+        Err(ReadRdataError::Other)
+    }
+}
+
+pub(crate) fn stub_validate_as_in_a(rdata: &Rdata) -> Result<(), ReadRdataError> {
+    record_validator(11, rdata)
+}
+pub(crate) fn stub_validate_as_in_wks(rdata: &Rdata) -> Result<(), ReadRdataError> {
+    record_validator(12, rdata)
+}
+pub(crate) fn stub_validate_as_hinfo(rdata: &Rdata) -> Result<(), ReadRdataError> {
+    record_validator(13, rdata)
+}
+pub(crate) fn stub_validate_as_txt(rdata: &Rdata) -> Result<(), ReadRdataError> {
+    record_validator(14, rdata)
+}
+pub(crate) fn stub_validate_as_in_aaaa(rdata: &Rdata) -> Result<(), ReadRdataError> {
+    record_validator(15, rdata)
+}
+pub(crate) fn stub_validate_as_opt(rdata: &Rdata) -> Result<(), ReadRdataError> {
+    record_validator(16, rdata)
+}
+pub(crate) fn stub_validate_as_tsig(rdata: &Rdata) -> Result<(), ReadRdataError> {
+    record_validator(17, rdata)
+}
+
+/// Which validator the RFC format table prescribes for a class/type pair that
+/// is read without decompression; 0 = none (opaque RDATA).
+fn expected_validator(class: u16, ty: u16) -> u8 {
+    match ty {
+        1 if class == 1 => 11,  // IN A      RFC 1035 3.4.1
+        11 if class == 1 => 12, // IN WKS    RFC 1035 3.4.2
+        13 => 13,               // HINFO     RFC 1035 3.3.2
+        16 => 14,               // TXT       RFC 1035 3.3.14
+        28 if class == 1 => 15, // IN AAAA   RFC 3596
+        41 => 16,               // OPT       RFC 6891
+        250 => 17,              // TSIG      RFC 8945
+        _ => 0,
+    }
+}
+
+/// BOUNDED (message <= 4 octets; class, type, cursor, RDLENGTH unrestricted),
+/// loop-free: with every type-specific reader AND validator replaced by a
+/// recorder, `Rdata::read` calls exactly the one reader or validator that the
+/// format table prescribes for the pair (none for opaque types), hands a
+/// validator exactly `message[cursor..cursor+rdlength]`, fails with
+/// `UnexpectedEom` without calling a validator when that range does not
+/// exist, and passes the callee's verdict on.
+#[kani::proof]
+#[kani::stub(crate::rr::rdata::helpers::read_name_rdata, crate::verif_kani::rdata::stub_read_name_rdata)]
+#[kani::stub(crate::rr::rdata::Rdata::read_ch_a, crate::verif_kani::rdata::stub_read_ch_a)]
+#[kani::stub(crate::rr::rdata::Rdata::read_soa, crate::verif_kani::rdata::stub_read_soa)]
+#[kani::stub(crate::rr::rdata::Rdata::read_minfo, crate::verif_kani::rdata::stub_read_minfo)]
+#[kani::stub(crate::rr::rdata::Rdata::read_mx, crate::verif_kani::rdata::stub_read_mx)]
+#[kani::stub(crate::rr::rdata::Rdata::read_in_srv, crate::verif_kani::rdata::stub_read_in_srv)]
+#[kani::stub(crate::rr::rdata::Rdata::validate_as_in_a, crate::verif_kani::rdata::stub_validate_as_in_a)]
+#[kani::stub(crate::rr::rdata::Rdata::validate_as_in_wks, crate::verif_kani::rdata::stub_validate_as_in_wks)]
+#[kani::stub(crate::rr::rdata::Rdata::validate_as_hinfo, crate::verif_kani::rdata::stub_validate_as_hinfo)]
+#[kani::stub(crate::rr::rdata::Rdata::validate_as_txt, crate::verif_kani::rdata::stub_validate_as_txt)]
+#[kani::stub(crate::rr::rdata::Rdata::validate_as_in_aaaa, crate::verif_kani::rdata::stub_validate_as_in_aaaa)]
+#[kani::stub(crate::rr::rdata::Rdata::validate_as_opt, crate::verif_kani::rdata::stub_validate_as_opt)]
+#[kani::stub(crate::rr::rdata::Rdata::validate_as_tsig, crate::verif_kani::rdata::stub_validate_as_tsig)]
+pub(crate) fn bnd_read_routing() {
+    let buf: [u8; 4] = kani::any();
+    let n: usize = kani::any();
+    kani::assume(n <= 4);
+    let msg = &buf[..n];
+    let c: u16 = kani::any();
+    let t: u16 = kani::any();
+    let cursor: usize = kani::any();
+    let rdlength: u16 = kani::any();
+
+    let r = Rdata::read(Class::from(c), Type::from(t), msg, cursor, rdlength);
+
+    let calls = unsafe { CALLS };
+    let tag = unsafe { SEEN_TAG };
+    let reader = expected_reader(c, t);
+    let validator = expected_validator(c, t);
+    let in_range = cursor <= n && (rdlength as usize) <= n - cursor;
+    if reader != 0 {
+        assert!(calls == 1 && tag == reader);
+        unsafe {
+            assert!(SEEN_CURSOR == cursor && SEEN_RDLEN == rdlength);
+            assert!(SEEN_PTR == msg.as_ptr() as usize && SEEN_LEN == n);
+        }
+        assert!(!matches!(r, Ok(Cow::Borrowed(_))));
+    } else if !in_range {
+        assert!(calls == 0);
+        assert!(matches!(r, Err(ReadRdataError::UnexpectedEom)));
+    } else {
+        let want = &msg[cursor..cursor + rdlength as usize];
+        if validator != 0 {
+            assert!(calls == 1 && tag == validator);
+            unsafe {
+                assert!(SEEN_PTR == want.as_ptr() as usize && SEEN_LEN == want.len());
+            }
+        } else {
+            assert!(calls == 0);
+            assert!(r.is_ok());
+        }
+        match r {
+            Ok(Cow::Borrowed(rd)) => {
+                assert!(rd.octets().as_ptr() == want.as_ptr() && rd.octets().len() == want.len());
+            }
+            Ok(Cow::Owned(_)) => assert!(false),
+            Err(e) => assert!(e == ReadRdataError::Other),
+        }
+    }
+}
+
+/// Counterexample finder for `helpers::prepare_to_read_rdata` (Verus obligation
+/// "possible arithmetic overflow" in `cursor + rdlength as usize`): reading an
+/// IN A record from a 4-octet message with ANY cursor and RDLENGTH must not panic.
+#[kani::proof]
+pub(crate) fn cex_read_any_cursor_total() {
+    let buf: [u8; 4] = kani::any();
+    let cursor: usize = kani::any();
+    let rdlength: u16 = kani::any();
+    let _ = Rdata::read(Class::IN, Type::A, &buf[..], cursor, rdlength);
+}
